@@ -349,6 +349,14 @@ macro "py_char" : tactic => `(tactic| first
   | exact Py.isAsciiAlnum_of_contains (by decide) ‹_›
   | exact Py.contains_of_contains (by decide) ‹_›)
 
+/-- goal `AllIn isAscii s` (C15) from a gate on the whole string -/
+macro "py_ascii" : tactic => `(tactic| first
+  | exact Py.allIn_isAscii_of_digits ‹_›
+  | exact Py.allIn_isAscii_of_B ‹_›
+  | exact Py.allIn_isAscii_of_isasciiS ‹_›
+  | exact Py.allIn_of_alphabet ‹_› (by decide)
+  | exact Py.allIn_isAscii_of_alnum ‹_›)
+
 /-! ## closers -/
 
 macro "py_vc1" : tactic => `(tactic| (first
@@ -411,8 +419,31 @@ macro "py_vc3" : tactic => `(tactic| (py_prep; all_goals first
   | assumption
   | omega
   | py_exc
+  | py_ascii
   | (py_split_len <;> (py_explode; py_eval; all_goals (try subst_vars); all_goals py_close_concrete))
   | py_close_generic))
+
+namespace Py
+theorem startswith_false_of_digits {v p : Str} (hv : AllIn isAsciiDigit v)
+    (hp : (p.head?.map isAsciiDigit) = some false) : startswith v p = false := by
+  cases p with
+  | nil => simp at hp
+  | cons a t =>
+    simp only [List.head?_cons, Option.map_some, Option.some.injEq] at hp
+    cases hs : startswith v (a :: t) with
+    | false => rfl
+    | true =>
+      obtain ⟨u, rfl⟩ := startswith_iff.mp hs
+      have := hv a (by simp)
+      rw [hp] at this; cases this
+end Py
+
+/-- `compact v = ok v` for a digit string `v` (`h : IsDigits v`), after `unfold compact` -/
+macro "py_compact_digits " h:ident : tactic => `(tactic|
+  (have hd__ := ($h).2
+   simp (disch := first | assumption | decide) only [Py.clean_eq, bind, Except.bind, pure, Except.pure,
+      Py.cleanP_digits, Py.upper_of_asciiDigits, Py.lower_of_asciiDigits, Py.strip_eq_self_of_asciiDigit,
+      Py.startswith_false_of_digits, Bool.false_eq_true, if_false, ite_false, reduceIte]))
 
 /-- the closing tactic used by the generated contract proofs -/
 macro "py_vc" : tactic => `(tactic| py_vc3)
